@@ -1,6 +1,7 @@
 package adapt
 
 import (
+	"sort"
 	"strings"
 	"context"
 	"errors"
@@ -254,8 +255,8 @@ func (c *V1) Do(op Op) (out Outcome) {
 	}
 	switch op.Kind {
 	case OpPut:
-		in := &v1ddb.PutItemInput{TableName: aws.String(op.Table), Item: ItemToV1(op.Item), ConditionExpression: condExpr(op),
-			ExpressionAttributeNames: v1Names(op.Names), ExpressionAttributeValues: ItemToV1(op.Values)}
+		in := &v1ddb.PutItemInput{TableName: aws.String(op.Table), Item: itemV1(op, op.Item), ConditionExpression: condExpr(op),
+			ExpressionAttributeNames: v1Names(op.Names), ExpressionAttributeValues: itemV1(op, op.Values)}
 		in.ReturnConsumedCapacity = strp(op.RetCap)
 		for a, v := range op.Expected {
 			if in.Expected == nil {
@@ -269,7 +270,7 @@ func (c *V1) Do(op Op) (out Outcome) {
 		_, err := c.callPutItem(in)
 		return fin(err)
 	case OpGet:
-		in := &v1ddb.GetItemInput{TableName: aws.String(op.Table), Key: ItemToV1(op.Key), ProjectionExpression: strpSet(op.Proj, op.ProjSet), ExpressionAttributeNames: v1Names(op.Names)}
+		in := &v1ddb.GetItemInput{TableName: aws.String(op.Table), Key: itemV1(op, op.Key), ProjectionExpression: strpSet(op.Proj, op.ProjSet), ExpressionAttributeNames: v1Names(op.Names)}
 		in.ReturnConsumedCapacity = strp(op.RetCap)
 		in.AttributesToGet = v1Strs(op.AttrsToGet)
 		if op.Consistent {
@@ -288,8 +289,8 @@ func (c *V1) Do(op Op) (out Outcome) {
 		}
 		return o
 	case OpUpdate:
-		in := &v1ddb.UpdateItemInput{TableName: aws.String(op.Table), Key: ItemToV1(op.Key), UpdateExpression: updExpr(op),
-			ConditionExpression: condExpr(op), ExpressionAttributeNames: v1Names(op.Names), ExpressionAttributeValues: ItemToV1(op.Values)}
+		in := &v1ddb.UpdateItemInput{TableName: aws.String(op.Table), Key: itemV1(op, op.Key), UpdateExpression: updExpr(op),
+			ConditionExpression: condExpr(op), ExpressionAttributeNames: v1Names(op.Names), ExpressionAttributeValues: itemV1(op, op.Values)}
 		in.ReturnConsumedCapacity = strp(op.RetCap)
 		for a, v := range op.Expected {
 			if in.Expected == nil {
@@ -308,8 +309,8 @@ func (c *V1) Do(op Op) (out Outcome) {
 		}
 		return o
 	case OpDelete:
-		in := &v1ddb.DeleteItemInput{TableName: aws.String(op.Table), Key: ItemToV1(op.Key), ConditionExpression: condExpr(op),
-			ExpressionAttributeNames: v1Names(op.Names), ExpressionAttributeValues: ItemToV1(op.Values)}
+		in := &v1ddb.DeleteItemInput{TableName: aws.String(op.Table), Key: itemV1(op, op.Key), ConditionExpression: condExpr(op),
+			ExpressionAttributeNames: v1Names(op.Names), ExpressionAttributeValues: itemV1(op, op.Values)}
 		in.ReturnConsumedCapacity = strp(op.RetCap)
 		if op.RetOld {
 			in.ReturnValues = aws.String("ALL_OLD")
@@ -335,8 +336,8 @@ func (c *V1) Do(op Op) (out Outcome) {
 		return o
 	case OpQuery:
 		in := &v1ddb.QueryInput{TableName: aws.String(op.Table), FilterExpression: strpSet(op.Filter, op.FilterSet), ProjectionExpression: strpSet(op.Proj, op.ProjSet),
-			ExpressionAttributeNames: v1Names(op.Names), ExpressionAttributeValues: ItemToV1(op.Values), IndexName: strp(op.Index),
-			ExclusiveStartKey: ItemToV1(op.Start)}
+			ExpressionAttributeNames: v1Names(op.Names), ExpressionAttributeValues: itemV1(op, op.Values), IndexName: strp(op.Index),
+			ExclusiveStartKey: itemV1(op, op.Start)}
 		in.ReturnConsumedCapacity = strp(op.RetCap)
 		if !op.NoKC {
 			in.KeyConditionExpression = aws.String(op.KeyCnd)
@@ -369,8 +370,8 @@ func (c *V1) Do(op Op) (out Outcome) {
 		return o
 	case OpScan:
 		in := &v1ddb.ScanInput{TableName: aws.String(op.Table), FilterExpression: strpSet(op.Filter, op.FilterSet), ProjectionExpression: strpSet(op.Proj, op.ProjSet),
-			ExpressionAttributeNames: v1Names(op.Names), ExpressionAttributeValues: ItemToV1(op.Values), IndexName: strp(op.Index),
-			ExclusiveStartKey: ItemToV1(op.Start)}
+			ExpressionAttributeNames: v1Names(op.Names), ExpressionAttributeValues: itemV1(op, op.Values), IndexName: strp(op.Index),
+			ExclusiveStartKey: itemV1(op, op.Start)}
 		in.ReturnConsumedCapacity = strp(op.RetCap)
 		in.AttributesToGet = v1Strs(op.AttrsToGet)
 		if op.Consistent {
@@ -673,4 +674,42 @@ func (c *V1) callUpdateTable(in *v1ddb.UpdateTableInput) (*v1ddb.UpdateTableOutp
 		return c.C.UpdateTableWithContext(ctx, in)
 	}
 	return c.C.UpdateTable(in)
+}
+
+// itemV1 converts a value map for a request of op; with op.SharePtrs, values that are equal become ONE
+// *AttributeValue used at every place they occur (top level and nested): what a caller gets who builds a value
+// once and puts it at several places of a request (one NULL marker, one address map used twice).
+func itemV1(op Op, it val.Item) map[string]*v1ddb.AttributeValue {
+	m := ItemToV1(it)
+	if !op.SharePtrs || m == nil {
+		return m
+	}
+	seen := map[string]*v1ddb.AttributeValue{}
+	var share func(v *v1ddb.AttributeValue) *v1ddb.AttributeValue
+	share = func(v *v1ddb.AttributeValue) *v1ddb.AttributeValue {
+		if v == nil {
+			return nil
+		}
+		for i := range v.L {
+			v.L[i] = share(v.L[i])
+		}
+		for k := range v.M {
+			v.M[k] = share(v.M[k])
+		}
+		id := FromV1(v).Canon()
+		if first, ok := seen[id]; ok {
+			return first
+		}
+		seen[id] = v
+		return v
+	}
+	names := make([]string, 0, len(m))
+	for k := range m {
+		names = append(names, k)
+	}
+	sort.Strings(names)
+	for _, k := range names {
+		m[k] = share(m[k])
+	}
+	return m
 }
